@@ -30,6 +30,14 @@ CHECKS = {
                        {"name": "lp-exh", "suite": "lp", "quick": ["--mode", "exh", "--universe", 1], "thorough": ["--mode", "exh", "--universe", 2]}],
             "assumptions": ["the simplex pivoting / LU code is not modelled: the theorems are about the terminal certificate (legalOptimal) and the standard-form transformation at exact rationals; that the implementation always ends in a legal state is validated per run by recomputing the certificate exactly from the returned basis, not proved",
                             "IEEE-754 rounding is outside the theorems; f64 data enter the model as exact rationals of their bit patterns"]},
+    "C10": {"suites": [{"name": "lower", "suite": "lower", "quick": ["--count", 2500], "thorough": ["--count", 60000]}, API],
+            "assumptions": INT_ASSUME + ["lowering model covers integer expression trees over + - * / mod, the six comparisons and and/or/not combinators (Model/Lower.lean); float operands are exercised by the API-level oracle only",
+                                         "models whose lowered propagators include kinds outside PK are compared up to the lowering (propagator list), their enumeration is left to the API-level oracle"]},
+    "C19": {"suites": [{"name": "gac", "suite": "gac", "quick": ["--count", 2000], "thorough": ["--count", 30000]},
+                       {"name": "gac-exh", "suite": "gac", "quick": ["--exh", "--universe", 4, "--vars", 3], "thorough": ["--exh", "--universe", 5, "--vars", 4]}],
+            "exhaustive_in_thorough": True,
+            "assumptions": ["the sparse engine iterates a std HashMap whose order is unobservable from outside: the harness passes the observed outcome and the model checks that SOME order of the key set produces exactly it (graph-level orders are observed and passed explicitly)",
+                            "u64/u128 masks modelled as lists of values; shifts outside the mask width are the recorded panic findings"]},
     "C11": {
         "suites": [
             {"name": "ss", "suite": "ss", "quick": ["--count", 600], "thorough": ["--count", 40000]},
